@@ -96,3 +96,12 @@ claim('C16', 'provenance of each certificate field, linear size algebra on the h
       'SignatureInfo at 0x16 with ValidityPeriod 0xFD{0xFE,0xFF}; parse_certificate checks the Data type. '
       'Does not decide signature validity or time-zone handling.',
       'NDN certificate format v2 numbers; datetime.strftime semantics')
+
+claim('C10', 'reaching definitions / provenance at the dispatch block, nullable-field narrowing of the Nack discriminator, must-pass-through on the token test, extracted NDNLPv2 model tables',
+      'Decides: everything dispatched after unwrapping derives from the received packet or the envelope Fragment and its type from '
+      'parse_tl_num(Fragment), one shared dispatch block; the Nack reason reaching _on_nack/InterestNack is the envelope field or NONE, '
+      'and the Nack discriminator cannot be None when a Nack header is present (both front-ends); the PIT token flows envelope -> '
+      '_on_interest -> reply closure -> LpPacket(pit_token, fragment=data) unmodified, bare send exactly when there is no token '
+      '(is None, not truthiness); parse_lp_packet_v2 checks 0x64, ignores unknown headers, rejects frag_index/frag_count with '
+      'DecodeError; model type numbers, Fragment last, Nack nesting. Does not decide value-level behaviour for all header combinations.',
+      'NDNLPv2 numbers as transcribed; TlvModel codec (C08)')
